@@ -1,5 +1,7 @@
 package main
 
+import "math/big"
+
 // strings.Trim / TrimLeft / TrimRight on strings of symbolic bytes: the library
 // implementation uses a bit set (shifts by a symbolic amount), which the
 // interpreter does not encode; the model strips boundary bytes one at a time,
@@ -45,4 +47,19 @@ func init() {
 			return StrVal{sym: s.sym[lo:hi]}, stNext
 		})
 	}
+}
+
+func init() {
+	// utf8.RuneCount of encoded (opaque) bytes: some number between 0 and the byte length - the
+	// content of a JSON payload is not modelled byte by byte
+	prev := icTable["unicode/utf8.RuneCount"]
+	reg("unicode/utf8.RuneCount", func(m *Machine, g *Goroutine, c *callCtx) (Value, stepStatus) {
+		if bl := blobOf(c.args[0]); bl != nil {
+			n := mkVar(m.uniqueName("runecount"), SInt, big.NewInt(0), nil)
+			m.declare(n)
+			m.assume(tLe(n, m.blobLen(bl)))
+			return n, stNext
+		}
+		return prev(m, g, c)
+	})
 }
